@@ -282,7 +282,7 @@ Qed.
 Lemma unwrap_rc_ok l r : rfd (lookup_fd l) -> okd (fun l' => rfd (lookup_fd l')) (unwrap_rc l r).
 Proof.
   intro H. unfold unwrap_rc.
-  destruct (rc_get _ r) as [|[|n]]; constructor. exact H.
+  destruct (rc_get _ r) as [|[|n]]; constructor; try exact H; right; left; reflexivity.
 Qed.
 
 Theorem opath_resolve_root_ok root path nosym nofollow :
